@@ -125,6 +125,11 @@ def queries(ta, codes=None):
     except Exception as ex:
         out["cons"] = {"raised": _name(ex), "g": EMPTY_G, "sup": []}
     try:
+        # a threshold below 1/2: the greedy consensus has to choose among incompatible splits (ties included)
+        out["conslow"] = {"raised": "", "g": proj.tree_graph(ta.consensus_tree(min_freq=0.25, summarize_splits=False), codes=codes)}
+    except Exception as ex:
+        out["conslow"] = {"raised": _name(ex), "g": EMPTY_G}
+    try:
         scores, mx = ta.calculate_log_product_of_split_supports()
         out["scores"] = {"raised": "", "vals": [rat_exp(s) for s in scores], "maxidx": -1 if mx is None else int(mx)}
     except Exception as ex:
